@@ -343,3 +343,17 @@ def ok_facts_deep(ctx, ev, c, depth=3):
             if passed:
                 fs |= ok_facts_deep(ctx, ev, n, depth - 1)
     return fs
+
+
+def facts_through_helpers(ctx, ev, entry, res):
+    """facts_of(entry) plus, for every inlined helper of the same frame whose `?` was passed on the way to `entry` (its result's discriminant is known to
+    be Ok there), the facts that hold whenever that helper returns Ok"""
+    fs = set(ctx.facts_of(ev, entry))
+    for c in res.log:
+        if c["kind"] == "call" and not c["chain"] and c.get("sub") is not None and c["seq"] < entry["seq"]:
+            r_ = c["result"]
+            errs = [p_[0] for n_, p_ in (dict(r_[2]).items() if tag(r_) == "vsum" else []) if n_ == "Err" and p_]
+            passed = any(f[0] == "discr" and f[2] in (("eq", 0), ("ne", (1,))) and (mentions(f[1], r_) or any(mentions(f[1], x_) for x_ in errs)) for f in fs)
+            if passed:
+                fs |= set(ok_facts_deep(ctx, ev, c))
+    return fs
